@@ -2,7 +2,7 @@
    0,0,1 of Malformed/CostTwin.v: every call of fp.read is charged the number of bytes it returned, including the
    peeks of is_readable, the re-reading of a block as a sub-stream, and what a section reader looked at past its
    declared end) are linear in the size of the data:
-     bytes (read_psd_t b) <= 6 * length b + 37     for EVERY byte string b.
+     bytes (read_psd_t b) <= 6 * length b     for EVERY byte string b.
    No declared length or count can make the reader materialise more than a constant multiple of the file. *)
 From PsdV Require Import Base.Prelude Psd.Codec Psd.Model Malformed.CostBase Malformed.CostProgress Malformed.CostTwin Malformed.CostProofs.
 From Coq Require Import ZArith List Bool Lia ZifyBool.
@@ -140,9 +140,9 @@ Section Charset.
   (* ---------------------------------------------------------------- LayerAndMaskInformation *)
   Lemma lami_body_bspec v s n :
     fst (Bt read_lami_body_t dec_s v s n) = read_lami_body dec_s v s n /\
-    snd (Bt read_lami_body_t dec_s v s n) <= 33 + 5 * len s.
+    snd (Bt read_lami_body_t dec_s v s n) <= 53 + 5 * len s.
   Proof. unfold read_lami_body_t, read_lami_body. cgo. Qed.
-  Global Instance lami_bspec v : SpecV (read_lami dec_s v) (Bt read_lami_t dec_s v) 33 5.
+  Global Instance lami_bspec v : SpecV (read_lami dec_s v) (Bt read_lami_t dec_s v) 53 5.
   Proof.
     intros s. unfold read_lami_t, read_lami. unfold_twin.
     repeat first
@@ -162,6 +162,6 @@ Section Charset.
   Proof. intros s. unfold read_image_data_t, read_image_data. cgo. Qed.
 
   Lemma read_psd_bspec b :
-    fst (Bt read_psd_t dec_s b) = read_psd dec_s b /\ snd (Bt read_psd_t dec_s b) <= 6 * len b + 37.
+    fst (Bt read_psd_t dec_s b) = read_psd dec_s b /\ snd (Bt read_psd_t dec_s b) <= 6 * len b.
   Proof. unfold read_psd_t, read_psd, read_header_t, read_cmd_t, read_cmd. cgo. Qed.
 End Charset.
